@@ -164,3 +164,63 @@ def restore_probe(v, tier, seed, name="python_state_restore"):
     v.coverage.setdefault(name, {}).update({"programs": ncmp, "programs_with_timers": ntimer, "violations": nviol,
         "rule": "Python processes with pickle state and a lazily created attribute; dfs vs bfs without cache must evaluate identical states incl. state texts"})
     return nviol
+
+
+def gen_py_sim(rng, kind="py"):
+    """a seeded simulation scenario whose processes are Python objects of the given vscript class"""
+    from . import sim_suite
+    lines = sim_suite.gen_scenario(rng, dict(p_clock=0, p_rand=0, procs=(1, 3), mc=dict(proc_kind=kind, json_payloads=True, p_timer=0.35, p_cancel=0.1,
+                                                                                      p_send=0.3, p_local=0.25, record=0.5)))
+    lines = [l.replace(":$", ':="e"') if l.startswith("rule") and l.split()[3].startswith("T:") else l for l in lines]
+    # payloads of local messages must be JSON texts for a Python process
+    lines = [re.sub(r" =([ab])$", r' ="\1"', l) if l.startswith("local ") else l for l in lines]
+    # the Python twin is built from the rules known when its `proc` line is executed: rules first
+    head = [l for l in lines if l.startswith(("seed", "draws", "node"))]
+    rules = [l for l in lines if l.startswith("rule")]
+    rest = [l for l in lines if not l.startswith(("seed", "draws", "node", "rule"))]
+    return head + rules + rest
+
+
+def sim_twin(v, tier, seed, name="python_sim_twin", n_quick=120, n_thorough=2000):
+    """Python processes in the *simulator*, implementation against itself: the same script system once with Python processes behind the
+    PyO3 bridge and once with the Rust twin issuing the same calls in canonical order; seeded simulation with random delays, faults,
+    crashes/recoveries, timers with every delay the generator produces (zero included), set_timer / set_timer_once / cancel_timer on
+    pending and non-pending names.  Every simulator observation (return values, clock, event log entries, outboxes, counters) must be
+    identical."""
+    from . import sim_suite
+    from .common import run_blocks, VH, JOBS, chunks, STALL_S
+    from concurrent.futures import ThreadPoolExecutor
+    rng = random.Random(seed * 5381 + 41)
+    n = n_quick if tier == "quick" else n_thorough
+    scen = []
+    for i in range(n):
+        lines = gen_py_sim(rng)
+        scen.append((f"sp{i}", lines))
+        scen.append((f"st{i}", swap_kind(lines, "py", "canon")))
+    parts = chunks([sim_suite.block(nm, l) for nm, l in scen], JOBS)
+    impl = {}
+    with ThreadPoolExecutor(max_workers=JOBS) as ex:
+        for o, rc, err in ex.map(lambda part: run_blocks([VH, "sim"], part, STALL_S), parts):
+            impl.update(o)
+    nviol = ncmp = nzero = ntimers = 0
+    for i in range(n):
+        a, t = impl.get(f"sp{i}", []), impl.get(f"st{i}", [])
+        lines = scen[2 * i][1]
+        if not a or not t or any("capped" in l or l.endswith("-timeout") for l in a + t):
+            continue
+        ncmp += 1
+        ntimers += any("TF(" in l for l in a)
+        nzero += any(re.search(r" [TO]:t\d:0( |$)", l) for l in lines if l.startswith("rule"))
+        if a != t:
+            k = next((j for j, (x, y) in enumerate(zip(a, t)) if x != y), min(len(a), len(t)))
+            if nviol < 4:
+                v.violation(f"{name}-sp{i}.txt",
+                            f"# property {v.pid}: in the simulator a Python process behaves differently from the equivalent Rust process "
+                            f"(first difference at observation {k})\n#   python: {(a[k] if k < len(a) else '-')[:500]}\n"
+                            f"#   rust:   {(t[k] if k < len(t) else '-')[:500]}\n# replay: /verif/check {v.pid} --replay <this file>\n"
+                            + "".join(l + "\n" for l in lines))
+            nviol += 1
+    v.coverage.setdefault(name, {}).update({"programs": ncmp, "with_timer_firings": ntimers, "with_zero_delay_timers": nzero, "violations": nviol,
+        "rule": "seeded simulations of generated script systems, Python processes behind the real bridge vs the Rust twin; every observation "
+                "of the simulator compared"})
+    return nviol
